@@ -165,9 +165,11 @@ func (s *Service) UpdateLoadBalancer(lb *LoadBalancer, slot TargetSlot) *LoadBal
 	var replaced *LoadBalancer
 
 	if slot == TargetSlotRollout {
+		verifEmit("update_lb", s, lb, int(slot))
 		replaced = s.rollout
 		s.rollout = lb
 	} else {
+		verifEmit("update_lb", s, lb, int(slot))
 		replaced = s.active
 		s.active = lb
 	}
@@ -284,6 +286,7 @@ func (s *Service) Stop(drainTimeout time.Duration, message string) error {
 	}
 
 	slog.Info("Service stopped", "service", s.name)
+	verifYield("paused_pre_drain", s)
 
 	s.Drain(drainTimeout)
 	slog.Info("Service drained", "service", s.name)
@@ -297,6 +300,7 @@ func (s *Service) Pause(drainTimeout time.Duration, pauseTimeout time.Duration) 
 	}
 
 	slog.Info("Service paused", "service", s.name)
+	verifYield("paused_pre_drain", s)
 
 	s.Drain(drainTimeout)
 	slog.Info("Service drained", "service", s.name)
@@ -423,6 +427,7 @@ func (s *Service) serviceRequestWithTarget(w http.ResponseWriter, r *http.Reques
 		return
 	}
 
+	verifYield("gate_passed", r, s)
 	lb := s.loadBalancerForRequest(r)
 	lb.ServeHTTP(w, r)
 }
